@@ -205,7 +205,18 @@ func (c *Config) readFile() error {
 }
 
 func (c *Config) writeFile() error {
-	f, err := os.OpenFile(c.path, os.O_RDWR|os.O_CREATE|os.O_TRUNC, 0644)
+	// write a temporary file next to the config and rename it into place, so that a crash
+	// at any point leaves either the previous or the new configuration on disk
+	tmp := c.path + ".tmp"
+	if err := c.writeFileTo(tmp); err != nil {
+		os.Remove(tmp)
+		return err
+	}
+	return os.Rename(tmp, c.path)
+}
+
+func (c *Config) writeFileTo(path string) error {
+	f, err := os.OpenFile(path, os.O_RDWR|os.O_CREATE|os.O_TRUNC, 0644)
 	if err != nil {
 		return fmt.Errorf("error opening config file for writing: %w", err)
 	}
